@@ -1351,3 +1351,42 @@ def wire_boundary_probe(seed):
         return out
     finally:
         cl.close()
+
+
+def handler_lag_probe(n_per_writer=450, busy_ms=3000):
+    """C14: a handler is busy with one frame while three writers append more frames than the live stream buffers for a
+    slow subscriber (100 + 1024): afterwards it must still be invoked exactly once, in order, for every frame of its
+    context - or have announced that it stopped"""
+    import threading
+    cl = Client("api,handlers")
+    try:
+        script = ('{ resume_from: "tail", run: {|frame| if $frame.topic == "slow" { sleep %dms }; '
+                  'if $frame.topic != "trig" { return }; $frame.id } }' % busy_ms)
+        hid = cl.append("h.register", body=script.encode())
+        if cl.wait_topic("h.registered", after=hid or 0) is None:
+            return dict(error="the probe handler was never announced as registered")
+        cl.append("slow")
+        trigs, lock = [], threading.Lock()
+        def w(k):
+            for i in range(n_per_writer):
+                t = "trig" if i % 10 == k else "other"
+                x = cl.append(t, body=b"x")
+                if t == "trig" and x:
+                    with lock:
+                        trigs.append(x)
+        ths = [threading.Thread(target=w, args=(k,)) for k in range(3)]
+        for t in ths:
+            t.start()
+        for t in ths:
+            t.join()
+        time.sleep(busy_ms / 1000 + 0.5)
+        last = cl.append("trig", body=b"after")
+        trigs.append(last)
+        cl.settle(0.8, 40)
+        fr = cl.frames()
+        outs = [H.s_to_id(f["meta"]["frame_id"]) for f in fr if f["topic"] == "h.out" and f["meta"] and f["meta"].get("handler_id") == H.id_to_s(hid)]
+        unreg = [f for f in fr if f["topic"] == "h.unregistered"]
+        return dict(appended=3 * n_per_writer + 2, triggers=len(trigs), outs=len(outs), in_order=outs == sorted(outs), dups=len(outs) - len(set(outs)),
+                    missing=len(set(trigs) - set(outs)), last_served=last in outs, unregistered=len(unreg))
+    finally:
+        cl.close()
